@@ -48,7 +48,9 @@ impl std::fmt::Debug for OneWord {
 }
 
 fn prob_menu() -> Vec<f32> {
-    vec![1.0, 0.5, 0.25, 1.0 / 3.0, 0.1, 0.3, 0.7, 1.0 - f32::EPSILON / 2.0, f32::EPSILON / 2.0 * 2.0, 1.1920929e-7 / 2.0, 1e-9, 0.9, 0.125, 0.2]
+    let e = f32::EPSILON / 2.0; // 2^-24
+    // incl. sums just below 1: 1 - 2^-20, 1 - 2^-21 (alone), 0.5 + (0.5 - 2^-21), 0.25 + 0.5 + (0.25 - 2^-22)
+    vec![1.0, 0.5, 0.25, 1.0 / 3.0, 0.1, 0.3, 0.7, 1.0 - e, e * 2.0, 1.1920929e-7 / 2.0, 1e-9, 0.9, 0.125, 0.2, 1.0 - 16.0 * e, 1.0 - 8.0 * e, 0.5 - 8.0 * e, 0.25 - 4.0 * e]
 }
 const TARGETS: [usize; 6] = [0, 1, STATE_END, 2, STATE_SIGNAL, 3];
 
@@ -110,7 +112,9 @@ pub fn enumerate(state: &State, event: Event, targets: &[usize], lo: u64, hi: u6
 }
 
 fn judge(v: &[Trans], r: &VecResult, total: u64) -> Result<(), String> {
-    let tol = v.len() as f64 + 2.0;
+    // The code may accumulate the vector in any order/precision: a boundary computed from j f32 additions is off
+    // by at most j/4 outcomes (each addition rounds by <= 2^-25 = 1/4 outcome) plus one outcome for the
+    // boundary convention (< or <=) - "the resolution of the draw". A count lies between two boundaries.
     if r.other > 0 {
         return Err(format!("{} draws chose a target that the vector does not declare", r.other));
     }
@@ -118,6 +122,7 @@ fn judge(v: &[Trans], r: &VecResult, total: u64) -> Result<(), String> {
     for (i, t) in v.iter().enumerate() {
         let exact = t.1 as f64 * total as f64;
         sum += t.1 as f64;
+        let tol = 2.0 + (i as f64 + 1.0) / 2.0;
         if (r.counts[i] as f64 - exact).abs() > tol {
             return Err(format!("target {} declared with probability {} is chosen on {} of {} equally likely draws, expected {:.1} (+-{})", t.0, t.1, r.counts[i], total, exact, tol));
         }
@@ -130,6 +135,7 @@ fn judge(v: &[Trans], r: &VecResult, total: u64) -> Result<(), String> {
         }
     }
     let exact_none = ((1.0 - sum) * total as f64).max(0.0);
+    let tol = 1.0 + v.len() as f64 / 4.0;
     if (r.none as f64 - exact_none).abs() > tol {
         return Err(format!("no transition on {} of {} draws, expected {:.1} (+-{}) for the remaining probability {}", r.none, total, exact_none, tol, 1.0 - sum));
     }
@@ -406,7 +412,7 @@ pub fn worker(ctx: &WorkerCtx) -> WorkerOut {
     let coverage = json!({
         "states": OUTCOMES, "transitions": calls, "traces_validated_against_impl": probe_calls, "samples": samples,
         "evaluations": calls + probe_calls, "distinct_nontrivial": nontriv,
-        "rule": "for every validated probability vector of the corpus (placed on one of the 13 events of a state whose other events carry other vectors) every one of the 2^23 distinct values of the uniform draw (words k<<9) goes through the real State::sample_state; exact outcome counts compared with p_i*2^23 (tolerance len+2 outcomes). distinct_nontrivial = vectors with more than one target or a probability below 1. Framework probes: every word through trigger_events, observable effect vs sampled target",
+        "rule": "for every validated probability vector of the corpus (placed on one of the 13 events of a state whose other events carry other vectors) every one of the 2^23 distinct values of the uniform draw (words k<<9) goes through the real State::sample_state; exact outcome counts compared with p_i*2^23 (tolerance 2 + i/2 outcomes for the i-th target, 1 + len/4 for 'no transition': f32 accumulation plus the boundary convention). distinct_nontrivial = vectors with more than one target or a probability below 1. Framework probes: every word through trigger_events, observable effect vs sampled target",
         "exhaustive": ctx.only_unit.is_none(),
         "probability_vectors": nvec, "draw_outcomes_per_vector": OUTCOMES, "states_with_13_different_vectors": groups.len(), "framework_probe_vectors": probes.len(), "framework_probe_calls": probe_calls, "words_enumerated_over_the_full_2^32_space": full_words,
         "wall_s": t0.elapsed().as_secs_f64(),
